@@ -42,6 +42,13 @@ def check(repo, col, tier):
     _length(repo, col, fi, ex)
     _rows(repo, col, fi, ex)
     _reinit(repo, col, fi, ex)
+    # the morphology initialisers that set_ncomp re-runs must index a module whose branches have DIFFERENT numbers of
+    # compartments (which only set_ncomp can produce): shared with C01/C02
+    from . import c01, c01_solver
+    col.rule("R-C13-layout", "after re-initialisation the padded solver layout addresses every compartment of every branch, for unequal counts", 8)
+    c01._layout(repo, col, "R-C13-layout")
+    col.rule("R-C13-ends", "re-initialised branch-point edges attach at each branch's own first / last compartment", 4)
+    c01_solver._ends(repo, col, "R-C13-ends")
     col.rule("R-C13-iter", "branches are handed out one at a time, so set_ncomp inside a loop over branches sees current rows", 2)
     from . import c11
     c11.lazy_iteration(repo, col, "R-C13-iter")
@@ -216,23 +223,63 @@ def _rows(repo, col, fi, ex):
     src = unparse(fi.node)
     st = next((s for s in ex.stores if s.kind == "attr" and s.key.name == "nodes" and s.base.op == "attr" and s.base.name == "base"), None)
     v = st.value
+    # [rows before | new rows | rows after]: positions in the ORIGINAL table.  Either the old rows are dropped first and the
+    # table is cut at `start` twice, or the original table is cut at `start` and at `start + number of old rows`.
+    from sa.termalg import term_rat
+    from sa.algebra import Rat, Und
     cat = T.find(v, lambda x: x.op == "mcall" and x.name == "concat")
-    ok = False
-    detail = v.short(200)
+    ok, detail, verdict = False, v.short(200), "UNDECIDED"
     if cat is not None and cat.args[1].op == "list" and len(cat.args[1].args) == 3:
         a, b, c = cat.args[1].args
-        start = lambda t: T.find(t, lambda x: x.op == "slice") is not None
-        def sl(t):
-            s_ = T.find(t, lambda x: x.op == "slice")
-            return (s_.args[0].pretty(), s_.args[1].pretty()) if s_ is not None else None
-        sa_, sc = sl(a), sl(c)
-        drop_a = T.find(a, lambda x: x.op == "mcall" and x.name == "drop") is not None
-        drop_c = T.find(c, lambda x: x.op == "mcall" and x.name == "drop") is not None
-        new_rows = T.find(b, lambda x: x.op == "mcall" and x.name == "concat") is not None
-        ok = sa_ is not None and sc is not None and sa_[0] == "None" and sc[1] == "None" and sa_[1] == sc[0] and drop_a and drop_c and new_rows
-        detail = f"before={sa_}, after={sc}"
-    col.check(ok, R, fi, "rows before the branch / the new rows / rows after the branch, in this order",
-              "concat([all.iloc[:start], new, all.iloc[start:]]) after dropping the old rows", f"node table is rebuilt as {detail}", node=st.node)
+        atoms = {}
+
+        def leaf(x):
+            if x.op in ("call", "mcall") and x.name == "len":
+                atoms.setdefault("len:" + x.key(), x)
+                return Rat.atom("len:" + x.key())
+            return None
+
+        def cut(t):
+            """(lo, hi, dropped) of `<table>[.drop(index=range(s, e))].iloc[lo:hi]` as forms; dropped = (s, e) or None"""
+            sl_ = T.find(t, lambda x: x.op == "sub" and x.args[1].op == "slice" and x.args[0].op == "attr" and x.args[0].name == "iloc")
+            if sl_ is None:
+                return None
+            lo, hi, _st = sl_.args[1].args
+            f = lambda z: None if (z.op == "const" and z.name is None) else term_rat(z, leaf)
+            dr = T.find(sl_.args[0], lambda x: x.op == "mcall" and x.name == "drop")
+            dropped = None
+            if dr is not None:
+                rng = dr.kw.get("index") or (dr.args[1] if len(dr.args) > 1 else None)
+                if rng is not None and rng.op == "call" and rng.name == "range" and len(rng.args) == 2:
+                    dropped = (term_rat(rng.args[0], leaf), term_rat(rng.args[1], leaf))
+                else:
+                    raise Und("dropped rows are not a range")
+            return f(lo), f(hi), dropped
+        try:
+            ca, cc = cut(a), cut(c)
+            new_rows = T.find(b, lambda x: x.op == "mcall" and x.name == "concat") is not None or b.op in ("name", "phi", "mcall", "attr", "sub")
+            if ca is None or cc is None:
+                raise Und("the parts before / after the branch are not positional cuts of the node table")
+            loA, hiA, dA = ca
+            loC, hiC, dC = cc
+            # original position at which the kept tail starts
+            tail = loC
+            if dC is not None and loC is not None:
+                s0, e0 = dC
+                tail = loC + (e0 - s0) if loC.eq(s0) else None
+            n_old = (tail - hiA) if (tail is not None and hiA is not None) else None
+            head_ok = loA is None and hiA is not None and (dA is None or dA[0].eq(hiA))
+            tail_ok = hiC is None and n_old is not None and len(n_old.atoms()) == 1 and next(iter(n_old.atoms())).startswith("len:") and \
+                n_old.eq(Rat.atom(next(iter(n_old.atoms()))))
+            ok = head_ok and tail_ok and new_rows
+            detail = f"before=[:{hiA}], after=[{tail}:] in positions of the original table (old rows: {n_old})"
+            verdict = "DISCHARGED" if ok else "VIOLATED"
+        except Und as e:
+            detail = f"{e}"
+    col.add(R, fi, "rows before the branch / the new rows / rows after the branch, in this order", verdict,
+            "all[:start] + new + all[start + n_old:]" if ok else
+            f"node table is rebuilt as {detail}: the kept rows must be exactly those before `start` and those from `start + number of old "
+            f"compartments` on", node=st.node)
     # the insertion row is the global compartment index of the branch's first compartment
     from sa.spaces import Classifier
     sx = next((n for n in walk_no_nested(fi.node) if isinstance(n, ast.Assign) and isinstance(n.targets[0], ast.Name)
@@ -260,8 +307,9 @@ def _rows(repo, col, fi, ex):
         ok = rng is not None and rng.op == "call" and rng.name == "range" and len(rng.args) == 2 and \
             rng.args[1].op == "binop" and rng.args[1].name == "+" and rng.args[1].args[0].key() == rng.args[0].key() and \
             T.find(rng.args[1].args[1], lambda x: x.op == "call" and x.name == "len") is not None
-    col.check(ok, R, fi, "exactly the old rows of the branch are dropped", "range(start, start + number of old compartments)",
-              f"dropped rows: {dr.short(100) if dr else None}", node=st.node)
+    if dr is not None:
+        col.check(ok, R, fi, "exactly the old rows of the branch are dropped", "range(start, start + number of old compartments)",
+                  f"dropped rows: {dr.short(100) if dr else None}", node=st.node)
     ok = T.find(v, lambda x: x.op == "mcall" and x.name == "reset_index") is not None
     col.check(ok, R, fi, "row labels are renumbered densely", "reset_index(drop=True)", "row labels are not reset", node=st.node)
     ok = "all_nodes['global_comp_index'] = np.arange(len(all_nodes))" in src
